@@ -433,7 +433,12 @@ def run(pid, tier):
     if pid == "C06":
         import tracker_checks
         tracker_checks.run(tier, rep, cov)
+        import natsort_checks
+        natsort_checks.run(tier, cov)
+    if pid == "C13":
+        import session_checks
+        session_checks.c13_sessions(tier, rep, cov)
     assumptions = ["generated programs are a seeded sample, not all programs; values are 0/1",
                    "the tracer observes the solver through wrappers on its methods (harness/tracer.py)",
-                   "natural order of names computed by harness/natsort.py"]
+                   "natural order of names computed by harness/natsort.py (checked against NatSort.tla and the real sort_keys in the C06 run)"]
     return rep, "model_checking", cov, assumptions
